@@ -1203,9 +1203,8 @@ func (c *p5) pathNonNil(fn *Func, e ast.Expr, path string, at ast.Node, depth in
 			for k, s := range b.Succs {
 				// establishing edge?
 				if len(b.Succs) == 2 && len(b.Nodes) > 0 {
-					if cond, ok := b.Nodes[len(b.Nodes)-1].(ast.Expr); ok {
-						if _, isCase := fn.Prog.parents[cond].(*ast.CaseClause); !isCase {
-							f := decompose(cond, k == 0, nil)
+					if _, ok := b.Nodes[len(b.Nodes)-1].(ast.Expr); ok {
+						if f := fn.edgeCondFormula(b, k); f != nil {
 							if f.Holds(func(a *Atom) bool {
 								if c.nonNilAtom(fn, a, path, d.okVar) || c.errNilAtom(fn, a, d.errVar) || c.helperImplies(fn, a, path) || enumAtom(fn, a, d.enumVar, d.enumConsts) {
 									return true
